@@ -352,7 +352,7 @@ func variantEngine(v, p, f string) string {
 }
 
 func variantFast(v string, patch int) bool {
-	return strings.HasSuffix(v, "/plain") && patch != 1
+	return (strings.HasSuffix(v, "/plain") || strings.HasSuffix(v, "/symbols-patched")) && patch != 1
 }
 
 func has(list []string, x string) bool {
@@ -475,12 +475,55 @@ func optionalQuant(p string) bool {
 	return false
 }
 
+// quantifiedNullableCapture: the pattern contains a capturing group whose body can match the empty string and
+// that is itself quantified with * + or {..}, e.g. (a*)* or (?<n>a|)+
+func quantifiedNullableCapture(p, f string) bool {
+	var stack []int
+	for i := 0; i < len(p); i++ {
+		switch p[i] {
+		case '\\':
+			i++
+		case '[':
+			for i++; i < len(p) && p[i] != ']'; i++ {
+				if p[i] == '\\' {
+					i++
+				}
+			}
+		case '(':
+			stack = append(stack, i)
+		case ')':
+			if len(stack) == 0 {
+				return false
+			}
+			open := stack[len(stack)-1]
+			stack = stack[:len(stack)-1]
+			if i+1 >= len(p) || !strings.ContainsRune("*+{", rune(p[i+1])) {
+				continue
+			}
+			body := p[open+1 : i]
+			switch {
+			case strings.HasPrefix(body, "?:"):
+				continue // non-capturing
+			case strings.HasPrefix(body, "?<"):
+				body = body[strings.IndexByte(body, '>')+1:]
+			}
+			if body == "" || nullable(body, f) {
+				return true
+			}
+		}
+	}
+	return false
+}
+
 func stripGroups(d string) string {
 	d = reGroups.ReplaceAllString(d, "")
 	return strings.ReplaceAll(d, "]-", "]")
 }
 
-// rootCause maps a mismatch to the signature of an identified defect ("" = unclassified).
+// rootCause maps a mismatch to the signature of an identified defect of the pinned tree ("" = unclassified,
+// which is reported as a new VIOLATION with a fine-grained signature). Path-level rules check the shape of the
+// two dumps (which side has more matches / pieces); engine-level rules are keyed on the pattern features and
+// subject classes that trigger the disagreement between Go regexp and regexp2.
 func rootCause(p, f string, s *subject, patch int, b *bad) string {
 	pf := patternFeatures(p)
 	sc := subjectClasses(s)
@@ -493,12 +536,25 @@ func rootCause(p, f string, s *subject, patch int, b *bad) string {
 		if strings.HasSuffix(b.V1, "/subclass") || patch == 1 {
 			s1 = side(b.V1, p, f, 1)
 		}
-		if strings.HasSuffix(b.V2, "/subclass") || patch == 1 {
+		if strings.HasSuffix(b.V2, "/subclass") || strings.HasSuffix(b.V2, "/proto-patched") || patch == 1 {
 			s2 = side(b.V2, p, f, 1)
 		}
 	}
 	one := func(x string) bool { return (s1 == x) != (s2 == x) } // exactly one side is x
-	oneFast := strings.HasPrefix(s1, "fast") != strings.HasPrefix(s2, "fast")
+	fast1, fast2 := strings.HasPrefix(s1, "fast"), strings.HasPrefix(s2, "fast")
+	oneFast := fast1 != fast2
+	n1, n2 := nMatches(b.Op, b.D1), nMatches(b.Op, b.D2)
+	// nOf(x): number of matches reported by the side named x / by the other side
+	nOf := func(x string) (int, int) {
+		if s1 == x {
+			return n1, n2
+		}
+		return n2, n1
+	}
+	nFast, nSlow := n1, n2
+	if fast2 && !fast1 {
+		nFast, nSlow = n2, n1
+	}
 	switch {
 	case b.Kind == "noexec" && b.Op == "test":
 		return "generic-path|test|user exec not called"
@@ -506,30 +562,41 @@ func rootCause(p, f string, s *subject, patch int, b *bad) string {
 		return "panic|replace|sticky lastIndex beyond the subject reaches the engine (Go panic in regexp2)"
 	case b.Kind != "diff":
 		return ""
-	case has(pf, "named-group") && fl("u") && !asciiOnly(s) && (stripGroups(b.D1) == stripGroups(b.D2) || b.Op == "replaceStr"):
+	}
+	// ---- path-level defects (shape-checked)
+	switch {
+	case has(pf, "named-group") && fl("u") && !asciiOnly(s) && (strings.HasSuffix(s1, "re2") || strings.HasSuffix(s2, "re2")) &&
+		(stripGroups(b.D1) == stripGroups(b.D2) || b.Op == "replaceStr"):
 		return "engine|named groups|re2+u flag+non-ASCII subject: groups missing from the match result"
-	case isReplace && fl("u") && !fl("g") && !asciiOnly(s) && one("fast-rx2") && nMatches(b.Op, b.D1) != nMatches(b.Op, b.D2) && max(nMatches(b.Op, b.D1), nMatches(b.Op, b.D2)) > 1:
+	case isReplace && fl("u") && !fl("g") && !asciiOnly(s) && (one("fast-rx2") || b.K > 0 && oneFast) && n1 != n2 && max(n1, n2) > 1:
 		return "fast-path|replace|regexp2+u flag+non-ASCII subject: non-global replace replaces every match"
-	case isReplace && fl("y") && !fl("g") && !asciiOnly(s) && one("fast-re2") && nMatches(b.Op, b.D1)+nMatches(b.Op, b.D2) == 1:
+	case isReplace && fl("y") && !fl("g") && !asciiOnly(s) && one("fast-re2") && b.K == 0 && n1+n2 == 1:
 		return "fast-path|replace|re2+sticky+non-ASCII subject: sticky ignored at lastIndex 0"
+	case (isReplace || b.Op == "match") && fl("g") && fl("y") && oneFast && nFast < nSlow && nullable(p, f):
+		return "fast-path|global+sticky match/replace|iteration over empty matches differs from the exec loop"
+	case (isReplace || b.Op == "match") && fl("g") && one("fast-re2") && nullable(p, f):
+		if a, o := nOf("fast-re2"); a < o {
+			return "fast-path|global match/replace|re2 FindAll skips an empty match adjacent to the previous match"
+		}
+	case b.Op == "split" && (s1 == "fast-rx2" || s2 == "fast-rx2" || oneFast && !asciiOnly(s) && (!fl("u") || !validUTF16(s))) && nullable(p, f):
+		return "fast-path|split|regexp2 iteration: an empty match adjacent to the previous match yields an extra empty piece"
+	}
+	// ---- disagreements between the two engine libraries (feature-keyed)
+	switch {
 	case has(pf, "dot") && !fl("s") && has(sc, "LS"):
 		return "engine|dot|regexp2 dot matches U+2028"
 	case has(pf, `\b`) && (has(sc, "bmp") || has(sc, "longs") || has(sc, "kelvin")):
 		return `engine|\b|regexp2 word boundary counts non-ASCII letters as word characters`
 	case has(pf, `\w`) && fl("i") && (has(sc, "longs") || has(sc, "kelvin")):
 		return `engine|\w+i|U+017F and U+212A are word characters for re2 but not for regexp2`
-	case !fl("u") && (has(pf, "astral-literal") || has(pf, `\uSurrogate`)) && (has(sc, "astral") || has(sc, "lonehi") || has(sc, "lonelo")) && s1 != s2 && len(pf) > 1:
+	case !fl("u") && (has(pf, "astral-literal") || has(pf, `\uSurrogate`)) && (has(sc, "astral") || has(sc, "lonehi") || has(sc, "lonelo")) && len(pf) > 1:
 		return "engine|surrogate literal (no u flag)|regexp2 misses a multi-unit literal containing a surrogate code unit that follows a non-literal atom"
-	case has(pf, "negclass") && (has(pf, "alt") || optionalQuant(p)) && s1 != s2:
+	case quantifiedNullableCapture(p, f):
+		return "engine|quantified capturing group with nullable body|capture of the last iteration differs (re2: last non-empty iteration, regexp2: the empty one)"
+	case has(pf, "negclass") && (has(pf, "alt") || optionalQuant(p)):
 		return "engine|negated class after an optional atom or in an alternation|regexp2 uses a wrong leading-character set (match missed or not leftmost)"
-	case has(pf, "quant") && has(pf, `\b`) && s1 != s2 && !nullable(p, f):
+	case has(pf, "quant") && has(pf, `\b`) && !nullable(p, f):
 		return `engine|quantified atom followed by \b or \B|regexp2 does not backtrack into the loop`
-	case (isReplace || b.Op == "match") && fl("g") && fl("y") && oneFast && nullable(p, f):
-		return "fast-path|global+sticky match/replace|iteration over empty matches differs from the exec loop"
-	case (isReplace || b.Op == "match") && fl("g") && one("fast-re2") && nullable(p, f):
-		return "fast-path|global match/replace|re2 FindAll skips an empty match adjacent to the previous match"
-	case b.Op == "split" && (s1 == "fast-rx2" || s2 == "fast-rx2" || oneFast && !asciiOnly(s) && (!fl("u") || !validUTF16(s))) && nullable(p, f):
-		return "fast-path|split|regexp2 iteration: an empty match adjacent to the previous match yields an extra empty piece"
 	}
 	return ""
 }
